@@ -392,7 +392,7 @@ func cmdCheck(args []string) int {
 		}
 	}
 
-	// ---- 1b. C19 static tripwire (supplementary; the dynamic sibling/process comparison is the basis of the level)
+	// ---- 1b. C19 static tripwire (informational; the dynamic sibling/process comparison decides)
 	var tripReport map[string]any
 	if *prop == "C19" {
 		var flagged []string
@@ -400,11 +400,12 @@ func cmdCheck(args []string) int {
 		if len(flagged) > 0 {
 			path := filepath.Join(outDir, "static-tripwire.json")
 			_ = saveJSON(path, tripReport)
+			// Informational only: a range over a map whose result is sorted or summed, or time.Now feeding
+			// telemetry, is deterministic as far as C19 is concerned; a syntactic scan cannot tell. Only the
+			// dynamic comparison (siblings, processes, crash re-execution) decides the property.
 			for _, f := range flagged {
-				fmt.Println("violation: C19.static [static-tripwire]", f)
+				fmt.Println("note: C19.static [static-tripwire] construct worth a look (does not decide the property):", f)
 			}
-			violLines = append(violLines, fmt.Sprintf("VIOLATION property=%s replay=%s", *prop, path))
-			exit = 1
 		}
 	}
 
